@@ -2,12 +2,15 @@
 import itertools, json
 from harness.lib import tr as trlib
 from harness.props import geno_gen as G
+from harness.translators import hyper_defs
 
 META = dict(
     id='C13',
     model_run='PG.Model.HyperRun.run',
     runner_name='Hyper',
     model_targets=['Model/Geno.vo', 'Model/GenoRun.vo', 'Model/Hyper.vo', 'Model/HyperRun.vo'],
+    instance_obligations=['generated_agree (Proofs/HyperGenInstance.v: Float._decode / Float.encode / try_encode / the index test of Choices._decode / the constraint checks of Choices.encode as regenerated '
+                          'into Gen/HyperDefs.v from the current source equal what Model/Hyper.v computes; the translator also pins the AST of the 15 functions the model was transcribed from)'],
     technique=('Coq proofs over an executable model of pyglove.core.hyper object templates (scan for placeholders under a `where` filter, decode on structured '
                'decisions and on concrete DNA trees, encode by structural merge + first matching candidate) built on the Geno model of C11 '
                '+ differential correspondence against the library on a systematic placeholder x context x filter sweep and on random nested templates '
@@ -17,7 +20,7 @@ META = dict(
     level_note='(filled in below)',
     rule=('a case is (operation, where filter, template[, DNA | corrupted DNA tree | value]); distinct by its full wire text; non-trivial when the template has a '
           'conditional choice (a choice below a candidate), a multi-choice (k >= 2), a filter that rejects some placeholder, or the input is corrupted'),
-    trusted_base=['extraction: ExtrOcamlBasic only; ocaml/main.ml lexer/printer; cross-checked against vm_compute on a sample',
+    trusted_base=['translator harness/translators/hyper_defs.py (fail-closed ast reader; pins the functions the model was transcribed from)', 'extraction: ExtrOcamlBasic only; ocaml/main.ml lexer/printer; cross-checked against vm_compute on a sample',
                   'harness/props/c13.py builds the real pg.hyper objects and the wire form from one Python description of each template; '
                   'the DNA specification of the library is carried through harness/props/geno_gen.py'],
     assumptions=['user code of CustomHyper subclasses (custom_decode / custom_encode) is a pair of Section variables; the theorems state what they assume of it '
@@ -36,7 +39,7 @@ META['level_text'] = (
     'a value decoded from a placeholder tree bound to a value spec is accepted by that spec (fragment, on C04\'s Typing model). Tie: the model is run against the library on a systematic placeholder x context x filter sweep, on '
     'random nested templates (every DNA of spaces up to 200, 50 random beyond), on corrupted DNA trees and perturbed values; the direct oracle evaluates the property text on the real objects.')
 META['level_note'] = (
-    'Partial: "never modify the template" and "decoding twice gives equal values" are definitionally true of a pure Gallina function and are NOT claimed as theorems; they are decided by the '
+    'Tie: a fail-closed translator regenerates Float._decode / Float.encode, the exception classes try_encode swallows, the index test of Choices._decode and the constraint checks of Choices.encode from the current source on every run (proved equal to the model: generated_agree) and pins the AST of the 15 functions the model was transcribed from. Partial: "never modify the template" and "decoding twice gives equal values" are definitionally true of a pure Gallina function and are NOT claimed as theorems; they are decided by the '
     'oracle only (pg.to_json and a structural snapshot of the template before/after every decode / encode / iter / materialize; two decodes compared with pg.eq; decoded values share no node with the template). '
     'Runtime aliasing is not expressible in the model. Trusted: Coq kernel; extraction cross-checked with vm_compute; the harness. Modelled, not verified: the Python code itself (tied by the correspondence); '
     'user code of CustomHyper subclasses is a Section variable with stated hypotheses. Statements only partly proved are named *_partial in coq/Properties/C13.v and listed in design/C13.md.')
@@ -1065,8 +1068,12 @@ def run_jobs(jobs, nproc):
   with mp.get_context('fork').Pool(nproc) as pool:
     return pool.map(process_template, jobs, chunksize=max(1, len(jobs) // (nproc * 8)))
 
+GENERATED = {'Gen/HyperDefs.v': hyper_defs.translate}
+
 def run(ctx):
   import os
+  info = ctx.regen('Gen/HyperDefs.v', hyper_defs.translate)
+  if info is not None: ctx.extra['transcription_source_fingerprints'] = info['fingerprints']
   ctx.build()
   rng = ctx.rng
   py()
@@ -1134,6 +1141,20 @@ def run(ctx):
   lookup = {id(c): d for c, d in zip(cases, descr)}
   ctx.compare('HyperRun.run vs pg.template(...).dna_spec / decode / encode / pg.iter', cases, impl, model, describe=lambda c: lookup.get(id(c)))
   ctx.exhaustive = False
+  # something no longer checks (translation, proof, correspondence) and the oracle has no failing input yet: targeted search over
+  # the parts of the systematic sweeps this tier did not run (oracle only), within a second wall budget
+  if ctx.is_broken() and not ctx.hits:
+    done = {l for l, _, _ in templates}
+    more = [('sweep:' + l, t, w) for l, t, w in sweep_templates() if 'sweep:' + l not in done] + [('pairs:' + l, t, ['none']) for l, t in pair_sweep() if 'pairs:' + l not in done]
+    rng.shuffle(more)
+    P2 = dict(P, deadline=time.time() + int(os.environ.get('C13_SEARCH_BUDGET', ctx.scale(35, 600))), ncwork=0, npwork=0)
+    recs2 = run_jobs([(10 ** 6 + i, l, t, w, rng.getrandbits(48), qtr, P2) for i, (l, t, w) in enumerate(more)], nproc)
+    nh = 0
+    for rec in recs2:
+      for ev in rec.events:
+        if ev[0] == 'hit': ctx.hit(ev[1], ev[2], ev[3]); nh += 1
+    ctx.extra['targeted_search'] = dict(templates=len(more), hits=nh)
+    ctx.log('targeted search over %d more templates: %d hits' % (len(more), nh))
 
 def replay(ctx, rp):
   c = rp['case']
